@@ -38,6 +38,17 @@ fn build(p: &Program) -> Case {
         let toks: Vec<&str> = l.split(' ').collect();
         run_op(&mut c, 1000 + i, &toks);
     }
+    // the time values the threads will set: every thread's context (and the final snapshot) renders them as set values
+    for th in &p.threads {
+        for l in th {
+            let toks: Vec<&str> = l.split(' ').collect();
+            if let ["setctime", _, ns] | ["setmtime", _, ns] | ["setatime", _, ns] = toks.as_slice() {
+                if let Ok(v) = ns.parse::<i128>() {
+                    c.set_times.insert(v);
+                }
+            }
+        }
+    }
     c
 }
 
